@@ -676,10 +676,14 @@ Section Single.
     dict_get kvs (CUint 2) = Some (CBytes w) -> py_loads (CBytes w) = Ok (CArray old) -> bstr_list old -> blen old < 2 ^ 64 ->
     first_tagged 18 old = Ok (Some a0) -> spec_cose_alg alg = Some id -> 0 <= kid < 2 ^ 64 ->
     SIGN ent (CTag t (CMap kvs)) kn kid alg ctx act_remove_old = Ok (env', ent') ->
-    exists pre post x, old = pre ++ a0 :: post /\ first_tagged 18 pre = Ok None /\ py_loads a0 = Ok (CTag 18 x)
-      /\ signed_with ent (CTag t (CMap (dict_set kvs (CUint 2) (CBytes (encode (CArray (pre ++ post))))))) env' ent'
-                      (encode (CArray (pre ++ post))) (pre ++ post) kn kid alg id
-      /\ same_but_wrapper (CTag t (CMap kvs)) (CTag t (CMap (dict_set kvs (CUint 2) (CBytes (encode (CArray (pre ++ post))))))) w (encode (CArray (pre ++ post))).
+    exists pre post x d0 rest dg sig kind key,
+      let prot := encode (spec_protected id kid) in
+      let msg := encode (sig_structure prot (ser dg)) in
+      old = pre ++ a0 :: post /\ first_tagged 18 pre = Ok None /\ py_loads a0 = Ok (CTag 18 x)
+      /\ pre ++ post = CBytes d0 :: rest /\ py_loads (CBytes d0) = Ok dg
+      /\ keystore kn = Some (kind, key) /\ verify_signing_key_type kind alg = Ok true
+      /\ kms_result ecdsa eddsa eddsa_ph kind key ent msg alg sig ent'
+      /\ same_but_wrapper (CTag t (CMap kvs)) env' w (encode (CArray ((pre ++ post) ++ [CBytes (encode (cose_sign1 prot sig))]))).
   Proof.
     intros Hw Hold Hb Hl Hf Hid Hkid H.
     destruct (first_tagged_split 18 old a0 Hf) as (pre & post & x & -> & Hpre & Ha & Hrem).
@@ -694,12 +698,9 @@ Section Single.
                 Hasa eq_refl eq_refl Hw1 Hcur Hid Hkid H) as (d0 & rest & dg & sig & Hc & Hd & Hk & ->).
     destruct (py_loads_is_bytes _ _ Hd) as [b0 ->].
     destruct (kms_sign_spec keystore ecdsa eddsa eddsa_ph _ _ _ _ _ _ _ Hk) as (kind & key & Hks & Hv & Hr).
-    exists pre, post, x. split; [reflexivity|]. split; [exact Hpre|]. split; [exact Ha|].
-    unfold kvs1 in *. rewrite (ser_bstr_list _ Hb') in *. split.
-    - exists b0, rest, dg, sig, kind, key. cbv zeta. repeat split; auto.
-      rewrite <- (ser_all_bstr ((pre ++ post) ++ _)) by (apply all_bstr_new, bstr_list_all, Hb').
-      apply same_but_wrapper_of_set. exact Hw1.
-    - apply same_but_wrapper_of_set. exact Hw.
+    exists pre, post, x, b0, rest, dg, sig, kind, key. cbv zeta. repeat split; auto.
+    unfold kvs1. rewrite dict_set_twice. rewrite (ser_all_bstr ((pre ++ post) ++ _)) by (apply all_bstr_new, bstr_list_all, Hb').
+    apply same_but_wrapper_of_set. exact Hw.
   Qed.
 
   (* a key of the wrong class: nothing is signed (for an unsigned, well-formed input the error is exactly the KMS's ValueError) *)
@@ -1258,4 +1259,122 @@ Proof.
   - destruct (init_deps_raises (fun dc denv dep => rs_init envvar dc denv dep (Some ss') (Some ks') alg' (match cx with Some x => Some x | None => ctx end)) env l) as [e' He'].
     + exists dn, dc. split; [exact Hin|]. right. destruct (IH dn (Some ss') (Some ks') alg' (match cx with Some x => Some x | None => ctx end)) as [e He]. eauto.
     + rewrite He'. eauto.
+Qed.
+
+(* ------------------------------------------------------------------------------------------------------------------
+   C09: the statements of Props/C09.v
+   ------------------------------------------------------------------------------------------------------------------ *)
+Section C09.
+  Variable keystore : bytes -> option (keykind * bytes).
+  Variable ecdsa : bytes -> bytes -> bytes -> nat -> Z * Z.
+  Variable eddsa eddsa_ph : bytes -> bytes -> bytes.
+  Local Notation SIGN := (sign_envelope keystore ecdsa eddsa eddsa_ph).
+  Local Notation CLI := (cli_sign_single keystore ecdsa eddsa eddsa_ph).
+  Local Notation NCS := (ncs_call keystore ecdsa eddsa eddsa_ph).
+
+  (* the input already bears a signature: its wrapper holds a list in which a0 is the first COSE_Sign1 block *)
+  Definition signed_input (kvs : list (cbor * cbor)) (w : bytes) (old : list cbor) (a0 : cbor) : Prop :=
+    dict_get kvs (CUint 2) = Some (CBytes w) /\ py_loads (CBytes w) = Ok (CArray old) /\ first_tagged 18 old = Ok (Some a0).
+
+  Lemma c09_error_refuses ent infile t kvs w old a0 kn kid alg ctx :
+    load_envelope infile = Ok (CTag t (CMap kvs)) -> signed_input kvs w old a0 ->
+    SIGN ent (CTag t (CMap kvs)) kn kid alg ctx act_error = Raise SignerError
+    /\ CLI ent infile kn kid alg ctx act_error = Raise SignerError.
+  Proof.
+    intros Hl (Hw & Hold & Hf). pose proof (sign_error keystore ecdsa eddsa eddsa_ph ent t kvs w old a0 kn kid alg ctx Hw Hold Hf) as H.
+    split; [exact H|]. rewrite (cli_single_unfold keystore ecdsa eddsa eddsa_ph ent infile _ kn kid alg ctx act_error Hl), H. reflexivity.
+  Qed.
+
+  Lemma c09_skip_identity ent infile t kvs w old a0 kn kid alg ctx :
+    load_envelope infile = Ok (CTag t (CMap kvs)) -> signed_input kvs w old a0 ->
+    SIGN ent (CTag t (CMap kvs)) kn kid alg ctx act_skip = Ok (CTag t (CMap kvs), ent)
+    /\ CLI ent infile kn kid alg ctx act_skip = Ok (ser (CTag t (CMap kvs)), ent).
+  Proof.
+    intros Hl (Hw & Hold & Hf). pose proof (sign_skip keystore ecdsa eddsa eddsa_ph ent t kvs w old a0 kn kid alg ctx Hw Hold Hf) as H.
+    split; [exact H|]. rewrite (cli_single_unfold keystore ecdsa eddsa eddsa_ph ent infile _ kn kid alg ctx act_skip Hl), H. reflexivity.
+  Qed.
+  (* ... for a deterministically encoded input file the output file is the input file *)
+  Lemma c09_skip_file ent c t kvs w old a0 kn kid alg ctx :
+    wf c -> pynormal c -> c = CTag t (CMap kvs) -> signed_input kvs w old a0 ->
+    CLI ent (encode c) kn kid alg ctx act_skip = Ok (encode c, ent).
+  Proof.
+    intros Hwf Hn -> Hs. destruct (pynormal_roundtrip _ [] Hwf Hn) as [Hl Hser]. rewrite app_nil_r in Hl.
+    destruct (c09_skip_identity ent _ t kvs w old a0 kn kid alg ctx Hl Hs) as [_ H]. rewrite H, Hser. reflexivity.
+  Qed.
+
+  (* remove-old: the first old block goes, everything else keeps its place, the new block comes last and verifies *)
+  Lemma c09_remove_old (pub : bytes -> bytes) ecdsa_verify eddsa_verify eddsa_ph_verify ent t kvs w old a0 kn kid alg ctx id env' ent' :
+    (forall k h m n, ecdsa_verify (pub k) h m (ecdsa k h m n) = true) ->
+    (forall k m, eddsa_verify (pub k) m (eddsa k m) = true) ->
+    (forall k m, eddsa_ph_verify (pub k) m (eddsa_ph k m) = true) ->
+    signed_input kvs w old a0 -> bstr_list old -> blen old < 2 ^ 64 -> spec_cose_alg alg = Some id -> 0 <= kid < 2 ^ 64 ->
+    SIGN ent (CTag t (CMap kvs)) kn kid alg ctx act_remove_old = Ok (env', ent') ->
+    exists pre post x d0 rest dg sig kind key,
+      old = pre ++ a0 :: post /\ first_tagged 18 pre = Ok None /\ py_loads a0 = Ok (CTag 18 x)
+      /\ pre ++ post = CBytes d0 :: rest /\ py_loads (CBytes d0) = Ok dg /\ keystore kn = Some (kind, key)
+      /\ same_but_wrapper (CTag t (CMap kvs)) env' w
+           (encode (CArray ((pre ++ post) ++ [CBytes (encode (cose_sign1 (encode (spec_protected id kid)) sig))])))
+      /\ cose_verify ecdsa_verify eddsa_verify eddsa_ph_verify kind (pub key) alg
+           (encode (sig_structure (encode (spec_protected id kid)) (ser dg))) sig = true.
+  Proof.
+    intros L1 L2 L3 (Hw & Hold & Hf) Hb Hl Hid Hk H.
+    destruct (sign_remove_old keystore ecdsa eddsa eddsa_ph ent t kvs w old a0 kn kid alg ctx id env' ent' Hw Hold Hb Hl Hf Hid Hk H)
+      as (pre & post & x & d0 & rest & dg & sig & kind & key & Hs). cbv zeta in Hs.
+    destruct Hs as (Ho & Hpre & Ha & Hc & Hd & Hks & Hv & Hr & Hfr).
+    exists pre, post, x, d0, rest, dg, sig, kind, key. repeat split; auto.
+    apply (kms_result_verifies ecdsa eddsa eddsa_ph pub ecdsa_verify eddsa_verify eddsa_ph_verify L1 L2 L3 kind key ent _ alg sig ent' Hr).
+  Qed.
+
+  (* a key of the wrong class is refused: by the KMS with ValueError, hence by the command, which then writes nothing *)
+  Lemma c09_key_mismatch ent infile t kvs w old d0 rest dg kn kid alg ctx action id kind key :
+    load_envelope infile = Ok (CTag t (CMap kvs)) ->
+    dict_get kvs (CUint 2) = Some (CBytes w) -> py_loads (CBytes w) = Ok (CArray old) -> first_tagged 18 old = Ok None ->
+    old = d0 :: rest -> py_loads d0 = Ok dg -> spec_cose_alg alg = Some id ->
+    keystore kn = Some (kind, key) -> match kind with KEc ks => 0 <= ks | _ => True end -> spec_key_matches kind alg = false ->
+    (forall msg, kms_sign keystore ecdsa eddsa eddsa_ph ent msg kn alg ctx = Raise ValueError)
+    /\ CLI ent infile kn kid alg ctx action = Raise ValueError.
+  Proof.
+    intros Hl Hw Hold Hn Ho Hd Hid Hk Hks Hm. split.
+    - intros msg. apply (kms_mismatch keystore ecdsa eddsa eddsa_ph ent msg kn alg ctx kind key (spec_cose_alg_five alg id Hid) Hk Hks Hm).
+    - rewrite (cli_single_unfold keystore ecdsa eddsa eddsa_ph ent infile _ kn kid alg ctx action Hl).
+      rewrite (sign_mismatch keystore ecdsa eddsa eddsa_ph ent t kvs w old d0 rest dg kn kid alg ctx action id kind key Hw Hold Hn Ho Hd Hid Hk Hks Hm).
+      reflexivity.
+  Qed.
+
+  (* recursive signing with the NCS script: what is left untouched, at every level *)
+  Lemma c09_recursive_frame envvar ent infile c nm out ent' tr :
+    cfg_ok c -> cli_sign_recursive NCS envvar ent infile c nm = Ok (out, ent', tr) ->
+    exists env n env', load_envelope infile = Ok env /\ rs_init envvar c env nm None None default_alg None = Ok n /\ rn_env n = env
+                       /\ out = ser env' /\ every_level frame_level n env' /\ every_level manifest_level n env'.
+  Proof.
+    intros Hok. unfold cli_sign_recursive. intros H. hstep H. hstep H.
+    match goal with E : rs_init _ _ _ _ _ _ _ _ = Ok ?n |- _ => rename E into Ei; rename n into sn end.
+    destruct (rs_sign NCS sn ent) as [[[e1 n1] t1]|] eqn:Er; [|discriminate H]. injection H as <- <- <-.
+    destruct (rs_init_ok envvar c _ _ _ _ _ _ _ Hok Ei) as (Hrok & Henv & _).
+    pose proof (rs_sign_frame NCS (ncs_call_frame keystore ecdsa eddsa eddsa_ph) sn Hrok _ _ _ _ Er) as Hf.
+    exists a, sn, e1. split; [reflexivity|]. split; [exact Ei|]. split; [exact Henv|]. split; [reflexivity|]. split; [exact Hf|].
+    apply (every_level_mono _ _ frame_keeps_manifest _ _ Hf).
+  Qed.
+End C09.
+
+Lemma c09_omit_cli sc envvar ent infile c nm kn kid :
+  cfg_omit c = true ->
+  cli_sign_recursive sc envvar ent infile (with_keys c kn kid) nm = cli_sign_recursive sc envvar ent infile (with_keys c None None) nm.
+Proof.
+  intros Ho. unfold cli_sign_recursive. destruct (load_envelope infile) as [env|]; [|reflexivity].
+  pose proof (node_omit_no_key sc envvar c kn kid env nm None None default_alg None ent Ho) as H.
+  destruct (rs_init envvar (with_keys c kn kid) env nm None None default_alg None) as [n1|x1];
+    destruct (rs_init envvar (with_keys c None None) env nm None None default_alg None) as [n2|x2].
+  - rewrite H. reflexivity.
+  - rewrite H. reflexivity.
+  - rewrite <- H. reflexivity.
+  - injection H as ->. reflexivity.
+Qed.
+
+Lemma c09_bad_dependency envvar infile env c nm :
+  load_envelope infile = Ok env -> bad_dependency c env ->
+  exists e, forall sc ent, cli_sign_recursive sc envvar ent infile c nm = Raise e.
+Proof.
+  intros Hl Hb. destruct (bad_dependency_raises envvar c env Hb nm None None default_alg None) as [e He].
+  exists e. intros sc ent. unfold cli_sign_recursive. rewrite Hl, He. reflexivity.
 Qed.
